@@ -9,37 +9,85 @@
       templates of RenderOut.v, whose identifier tokens are audited below ([template_audit]): each is a
       keyword, a segment of an absolute `::core` path / a method or associated-item name reached through
       one, or reserved. *)
-From DX Require Import Syntax Tables Render GenBound GenAttrs IR RenderOut.
-
-Definition reserved (s : string) : bool :=
-  match s with String a (String b _) => Ascii.eqb a "_" && Ascii.eqb b "_" | _ => false end.
+From DX Require Import Syntax Tables Render GenBound GenAttrs IR RenderOut LemClosed.
 
 Theorem C13_binders_reserved :
   forall prefix m, reserved prefix = true -> reserved (make_ident prefix m) = true.
-Proof.
-  intros prefix m H. unfold make_ident.
-  destruct prefix as [|c1 [|c2 rest]]; try discriminate H.
-  destruct m; exact H.
-Qed.
+Proof. exact make_ident_reserved. Qed.
 
 (** the prefixes in use *)
 Example C13_prefixes :
   forallb reserved ["__l"; "__r"; "__v"; "__self"; "__other"; "__this"; "__eq"; "__partial_ord"; "__ord"; "__hash"] = true.
 Proof. reflexivity. Qed.
 
-(** identifiers a template may contain besides reserved ones *)
-Definition allowed : list string :=
-  ["impl"; "for"; "where"; "fn"; "match"; "let"; "mut"; "return"; "type"; "const"; "as"; "self"; "Self"; "automatically_derived";
-   "allow"; "clippy"; "double_parens"; "unused_parens"; "core"; "ops"; "cmp"; "hash"; "fmt"; "clone"; "default"; "marker";
-   "option"; "convert"; "Fn"; "Sized"; "Eq"; "Ord"; "PartialEq"; "PartialOrd"; "Hash"; "Hasher"; "Clone"; "Copy"; "Debug";
-   "Default"; "Deref"; "DerefMut"; "Into"; "PhantomData"; "Option"; "Some"; "Ordering"; "Equal"; "Formatter"; "Result"; "Output"; "Target";
-   "eq"; "partial_cmp"; "cmp"; "deref"; "deref_mut"; "into"; "map"; "reverse"; "finish"; "field"; "debug_struct";
-   "debug_tuple"; "stringify"; "unreachable"; "clone_from"; "bool"; "usize"; "true"; "false"; "T";
-   "Add"; "BitAnd"; "BitOr"; "BitXor"; "Div"; "Mul"; "Rem"; "Shl"; "Shr"; "Sub"; "Neg"; "Not";
-   "AddAssign"; "BitAndAssign"; "BitOrAssign"; "BitXorAssign"; "DivAssign"; "MulAssign"; "RemAssign"; "ShlAssign";
-   "ShrAssign"; "SubAssign"; "add"; "bitand"; "bitor"; "bitxor"; "div"; "mul"; "rem"; "shl"; "shr"; "sub"; "neg"; "not";
-   "_"; "add_assign"; "bitand_assign"; "bitor_assign"; "bitxor_assign"; "div_assign"; "mul_assign"; "rem_assign"; "shl_assign";
-   "shr_assign"; "sub_assign"].
+(** ** the templates are closed, for EVERY impl the generator can describe
+
+    [closed t]: token [t] is punctuation, a delimiter, a literal, or an identifier / lifetime that is a keyword, part of
+    the absolute-path vocabulary ([allowed]) or reserved (`__..`).  [hdr_ok user h] / [body_ok user b] / [op_ok user o]:
+    every piece of the IR that is copied from the user's program (types, names, `key` / `by` / `default` expressions,
+    declared generics, bounds) consists of tokens that are closed or satisfy [user].  Then so does the whole rendering. *)
+Theorem C13_templates_closed :
+  forall (user : tok -> Prop) (i : impl_ir),
+    hdr_ok user (ir_hdr i) -> body_ok user (ir_body i) ->
+    TOk user (r_hdr (ir_hdr i)) /\ TOk user (r_body (ir_hdr i) (ir_body i)) /\
+    match r_eq_checker (ir_hdr i) (ir_body i) with Some c => TOk user c | None => True end.
+Proof.
+  intros user i Hh Hb. split; [now apply Ok_hdr|]. split; [now apply Ok_body | now apply Ok_eq_checker].
+Qed.
+
+Theorem C13_operator_templates_closed :
+  forall (user : tok -> Prop) (o : op_ir),
+    op_ok user o -> TOk user (fst (r_op_ir o)) /\ TOk user (snd (r_op_ir o)).
+Proof. exact Ok_op_ir. Qed.
+
+(** read with [user := fun t => t <> x]: a token outside the closed vocabulary that occurs in none of the user's pieces
+    occurs nowhere in the generated impl - in particular no identifier such as `this`, `other`, `state`, `f`, `H`, `'a`
+    can be introduced by a template, whatever the item looks like *)
+Lemma Ok_avoid (x : tok) (l : toks) : closed x = false -> TOk (fun t => t <> x) l -> ~ In x l.
+Proof.
+  intros Hx H Hin. unfold TOk in H. rewrite Forall_forall in H. destruct (H x Hin) as [Hc|Hn].
+  - rewrite Hx in Hc. discriminate.
+  - now apply Hn.
+Qed.
+
+Theorem C13_no_foreign_token :
+  forall (i : impl_ir) (x : tok),
+    closed x = false ->
+    hdr_ok (fun t => t <> x) (ir_hdr i) -> body_ok (fun t => t <> x) (ir_body i) ->
+    ~ In x (r_hdr (ir_hdr i)) /\ ~ In x (r_body (ir_hdr i) (ir_body i)) /\
+    match r_eq_checker (ir_hdr i) (ir_body i) with Some c => ~ In x c | None => True end.
+Proof.
+  intros i x Hx Hh Hb. destruct (C13_templates_closed _ i Hh Hb) as (H1 & H2 & H3).
+  split; [now apply Ok_avoid|]. split; [now apply Ok_avoid|].
+  destruct (r_eq_checker _ _); [now apply Ok_avoid|exact I].
+Qed.
+
+(** the hypotheses are met, and the conclusion is about something: a Clone impl for `struct this<other>(other)` - the
+    user's own `this` / `other` are the only non-closed identifiers of the output; `state` occurs nowhere *)
+Definition ex_hdr : impl_hdr :=
+  {| ih_allow := false; ih_generics := {| g_params := [GPTy "other" [] None]; g_where := [] |}; ih_trait := KClone;
+     ih_rhs := None; ih_self_ref := false;
+     ih_this := TyPath None false [Seg "this" (SAAngle [GTy (ident_ty "other")])];
+     ih_wtypes := [ident_ty "other"]; ih_wpreds := []; ih_wform := WFPlain |}.
+Definition ex_body : body := BCloneStruct "this" ShUnnamed [{| fl_index := 0; fl_member := MIndex 0; fl_ty := ident_ty "other" |}].
+Example C13_no_foreign_token_instance :
+  closed (TI "state") = false /\
+  hdr_ok (fun t => t <> TI "state") ex_hdr /\ body_ok (fun t => t <> TI "state") ex_body /\
+  In (TI "this") (r_body ex_hdr ex_body) /\ In (TI "other") (r_hdr ex_hdr).
+Proof.
+  split; [reflexivity|].
+  assert (forall l, ~ In (TI "state") l -> TOk (fun t => t <> TI "state") l) as A.
+  { intros l H. apply Forall_forall. intros t Ht. right. intros ->. exact (H Ht). }
+  split; [|split; [|split]].
+  - unfold hdr_ok. cbn [ih_generics ih_this ih_wtypes ih_wpreds ex_hdr].
+    split; [apply A; vm_compute; intuition discriminate|].
+    split; [apply A; vm_compute; intuition discriminate|].
+    split; [constructor; [apply A; vm_compute; intuition discriminate|constructor]|constructor].
+  - cbn [body_ok ex_body]. split; [right; discriminate|]. constructor; [|constructor].
+    unfold fld_ok. cbn [fl_ty fl_member]. repeat split; apply A; vm_compute; intuition discriminate.
+  - vm_compute. tauto.
+  - vm_compute. tauto.
+Qed.
 
 Definition user_name (s : string) : bool :=      (* the sentinel names of the skeletons below *)
   str_mem s ["U"; "u"; "V"; "w"].
@@ -113,3 +161,6 @@ Proof. vm_compute. reflexivity. Qed.
 
 Print Assumptions C13_binders_reserved.
 Print Assumptions C13_template_audit.
+Print Assumptions C13_templates_closed.
+Print Assumptions C13_operator_templates_closed.
+Print Assumptions C13_no_foreign_token.
